@@ -5,11 +5,12 @@ set_option linter.unusedSimpArgs false
 namespace Pcore.Lat
 variable (cfg : Cfg) (sfh : Bool)
 
-/-- Stage-1 fragment of transitivity: hereditarily none of Unit (two-way assignable by definition), Tuple and Struct (positional /
-    counting rules, and the Struct-from-Hash rule that breaks transitivity), Iterable (no Struct / Enum arm), Data / RichData. -/
+/-- Fragment of transitivity: hereditarily none of Unit (two-way assignable by definition), Struct (counting rule, and the
+    Struct-from-Hash rule that breaks transitivity), Iterable (no Struct / Enum arm), Data / RichData.  Tuples are inside (stage 2). -/
 def Ty.TF (t : Ty) : Prop :=
   match t with
-  | .unit | .data | .richData | .tuple _ _ | .struct _ | .iterable _ => False
+  | .unit | .data | .richData | .struct _ | .iterable _ => False
+  | .tuple ts _ => ∀ t', ∀ (_ : t' ∈ ts), Ty.TF t'
   | .array e _ => Ty.TF e
   | .hash k v _ => Ty.TF k ∧ Ty.TF v
   | .variant ts => ∀ t', ∀ (_ : t' ∈ ts), Ty.TF t'
